@@ -192,6 +192,29 @@ pub fn mul_128(a: u128, b: u128) -> (u128, u128) {
 /// One operand of width `lay.n`, as a masked bit pattern.  Mix of boundary
 /// constants, log-uniform magnitudes, sparse/dense patterns, limb-structured
 /// patterns and uniform bits (DESIGN.md 3, classes 1-2).
+/// Both half-width limbs drawn from carry-provoking values {0, 1, 2, 2^(h-1), 2^(h-1)+-1, 2^h-1, 2^h-2, random}:
+/// the operands on which limb-wise (schoolbook / long-division) code paths produce and propagate carries.
+pub fn gen_limb_structured(rng: &mut Rng, lay: Lay) -> u128 {
+    let h = lay.n / 2;
+    let hm = mask(h);
+    let mut pick = |rng: &mut Rng| -> u128 {
+        match rng.below(9) {
+            0 => 0,
+            1 => 1,
+            2 => 2,
+            3 => 1u128 << (h - 1),
+            4 => (1u128 << (h - 1)) + 1,
+            5 => (1u128 << (h - 1)) - 1,
+            6 => hm,
+            7 => hm - 1,
+            _ => rng.next128() & hm,
+        }
+    };
+    let hi = pick(rng);
+    let lo = pick(rng);
+    ((hi << h) | lo) & lay.mask()
+}
+
 pub fn gen_bits(rng: &mut Rng, lay: Lay) -> u128 {
     let n = lay.n;
     let f = lay.f;
@@ -202,7 +225,8 @@ pub fn gen_bits(rng: &mut Rng, lay: Lay) -> u128 {
         let k = rng.below(n as u64) as u32;
         let one = if f < n { 1u128 << f } else { 0 };
         let half = if f >= 1 { 1u128 << (f - 1) } else { 0 };
-        match rng.below(26) {
+        match rng.below(30) {
+            26..=29 => gen_limb_structured(rng, lay),
             0 => 0,
             1 => 1,
             2 => 2,
@@ -1109,7 +1133,8 @@ pub fn gen_trans_operand(rng: &mut Rng, s: Lay, d: Lay, kind: u32) -> u128 {
     let ulp = rng.range(-3, 3) as i128 as u128;
     let int_d = d.n - d.f - d.signed as u32; // magnitude bits of D
     match kind {
-        0 => match rng.below(14) {
+        0 => match rng.below(15) {
+            14 => gen_limb_structured(rng, s) & s.max_bits(),
             12 => {
                 // simple fractions p/q (4/9, 1/9, 4/25, ...): their reciprocals are (near) perfect squares / short
                 // rationals, where truncating iterations oscillate instead of converging
@@ -1245,7 +1270,8 @@ pub fn gen_trans_operand(rng: &mut Rng, s: Lay, d: Lay, kind: u32) -> u128 {
                 }
             }
         }
-        _ => match rng.below(6) {
+        _ => match rng.below(7) {
+            6 => gen_limb_structured(rng, s),
             0 => s.max_bits().wrapping_sub(rng.below(3) as u128),
             1 => s.min_bits().wrapping_add(rng.below(3) as u128),
             2 => {
